@@ -2120,6 +2120,20 @@ static bool parse_ignored(TokenContext &ctx, Chunk &pc)
       pc.SetType(CT_IGNORED);
       return(true);
    }
+
+   // a leading C comment that closes on this line has to hold the text itself
+   if (  !ontext.empty()
+      && pc.GetStr()[idx + 1] == '*')
+   {
+      int close = pc.GetStr().find("*/", idx + 2);
+
+      if (  close >= 0
+         && find_enable_processing_comment_marker(UncText(pc.GetStr(), idx, close + 2 - idx)) < 0)
+      {
+         pc.SetType(CT_IGNORED);
+         return(true);
+      }
+   }
    ctx.restore();
 
    // parse off whitespace leading to the comment
